@@ -25,7 +25,7 @@ CHECKS = {
              'histories are sampled.',
         design='5/C01', technique='deterministic simulation: the op budget as an enumerated crash point (kill at the N-th operation) against an unbounded twin run',
         note='K is counted by wrappers around every Op subclass\' eval installed from /verif (not read from the VM); '
-             'programs whose unbounded run exceeds 3000 operations are skipped; with a swallowing host only the gate '
+             'programs whose unbounded run exceeds 9000 operations or touches the interpreter's recursion limit are skipped; with a swallowing host only the gate '
              'count is demanded.'),
     'C03': dict(
         category='exploration',
@@ -195,7 +195,7 @@ def main():
         'setup_cmd': '/venv/bin/python -c "import regex, decimal, sys; sys.path.insert(0, \'/verif\'); import sim.cli"',
         'hooks': {
             'guard': 'SMARTQUERY_VERIF',
-            'enable': 'none needed: every seam is a monkeypatch applied from /verif/sim before smartquery is imported (random, regex, Op.eval of every node class, FUNCTIONS entries, sys.settrace, sys.addaudithook); /repo carries no hook code',
+            'enable': 'none needed: every seam is a monkeypatch applied from /verif/sim before smartquery is imported (random, regex and re, time, threading.Lock, Op.eval of every node class, FUNCTIONS entries, sys.settrace, sys.addaudithook); /repo carries no hook code',
             'baseline_off_cmd': 'cd /repo && /venv/bin/python -m pytest -ra -q -p no:cacheprovider --timeout=900 --continue-on-collection-errors',
             'source_commits': [],
             'add_only': True,
